@@ -47,7 +47,7 @@ def generate(ctx):
             opts["start"] = rng.randint(1, L)
             opts["end"] = rng.randint(opts["start"], L)
         refb = gen.layout(rng, [("theref desc", ref)], rng.choice(["plain", "wrap"]))
-        samb = samgen.render_sam("theref", L, recs)
+        samb = samgen.render_sam("theref", L, recs, trail=rng.random() > 0.12)
         exp = samgen.expected_topa(recs, ref, "theref", opts["wrap"], opts["start"], opts["end"], opts["omit_ref"], opts["omit_ins"])
         files = [f for f, _ in exp]
         expb = "".join("==%s==\n%s" % (f, t) for f, t in exp).encode()
